@@ -9,6 +9,7 @@ import math
 import warnings
 from fractions import Fraction
 
+from .. import layout as LY
 from ..oracles import c02_align as A
 from ..oracles import lev
 from . import _strgen as G
@@ -213,7 +214,7 @@ def _call(mon, case, which, ref, hyp, **over):
         if case["form"] == "module":
             mon.stat("form_module")
             cls = M.ErrorRate if which == "error_rate" else M.PrefixErrorRates
-            return mon.lib(which, lambda: cls(**kw)(ref, hyp), documented=documented)
+            return mon.lib(which, lambda: LY.travelled(cls(**kw), case["R"], case["H"], len(case["ref"]))(ref, hyp), documented=documented)
         fn = getattr(F, which)
         return mon.lib(which, lambda: fn(ref, hyp, **kw), documented=documented)
 
@@ -354,7 +355,7 @@ def _call_loss(mon, case, lp, ref, hyp):
         if case["form"] == "module":
             mon.stat("form_module")
             return mon.lib("minimum_error_rate_loss",
-                           lambda: M.MinimumErrorRateLoss(**kw)(lp, ref, hyp, warn=False))
+                           lambda: LY.travelled(M.MinimumErrorRateLoss(**kw), case["R"], case["H"])(lp, ref, hyp, warn=False))
         return mon.lib("minimum_error_rate_loss",
                        lambda: F.minimum_error_rate_loss(lp, ref, hyp, warn=False, **kw))
 
